@@ -63,6 +63,14 @@ SUMMARY = {
  "C09c": "RemoveReadonlyTXID finds the txid by binary search although swap-removal unsorts the list (same idea as C10a, independent)",
  "C10c": "Commit's spill-failure path uses nonPhysicalRollback (same patch as C18b, independent): pages taken from the free list by the failed transaction are lost",
  "C01d": "writeMeta drops the error of the fdatasync that follows the meta write (shadowed err): a commit whose final flush failed is acknowledged",
+ "C03d": "batch.run's Update closure returns a shadowed nil: a batch whose function failed after writing commits the partial writes",
+ "C14d": "WriteTo sizes its meta-page buffer with the OS page size instead of the database's",
+ "C16d": "batch.run's failIdx hoisted out of the retry loop (stale index: innocent calls re-run and committed again)",
+ "C17d": "the data file is mapped PROT_READ|PROT_WRITE for read-write handles (memory returned by read transactions becomes a writable view)",
+ "C02d": "RemoveReadonlyTXID removes every reader registered with that txid (slices.DeleteFunc): a second reader of the same version loses its protection",
+ "C04d": "Bucket.rebalance skips cached child buckets without a materialised root node",
+ "C06d": "ReleasePendingPages no longer sorts the reader list (the minimum is taken from an unsorted list after a swap-removal)",
+ "C07d": "DeleteBucket skips the nested-bucket scan when the child's root page id is 0 (a bucket moved into a still-inline bucket in the same transaction is leaked)",
 }
 rows = []
 for d in sorted(glob.glob("/verif/seeded/*/meta.json")):
